@@ -13,7 +13,6 @@ from .helper import create_build_finer_grid_fun
 from ..markovchain.markovchainlevycopula import MarkovChainLevyCopula
 from ...distribution.sampling import SamplingMethod
 from ...distribution.univariate.uniform import Uniform
-from ...grid.grid import CoordinateND
 from ...grid.spatial import CTMCGrid
 from ...model.levycopulamodel import LevyCopulaModel
 from ...montecarlo.path import StochasticJumpPath
@@ -176,14 +175,24 @@ class CouplingLevyCopulaSimulation:
             value = grid[position]
             u = self.coupling_process._uniform.sample()
 
-            projected_position = CoordinateND(position[k] for k in axis_coordinates)
+            # the neighbours are taken on the axes kept by the projection (the axes of a grid may differ)
+            projected_axes = [grid.axes[k] for k in axis_coordinates]
+            projected_position = [position[k] for k in axis_coordinates]
             projected_value = tuple(value[k] for k in axis_coordinates)
 
             projected_mid_left_value = grid.middle(
-                grid.left_point(projected_position), projected_value
+                tuple(
+                    axis[max(0, c - 1)]
+                    for axis, c in zip(projected_axes, projected_position)
+                ),
+                projected_value,
             )
             projected_mid_right_value = grid.middle(
-                projected_value, grid.right_point(projected_position)
+                projected_value,
+                tuple(
+                    axis[min(len(axis) - 1, c + 1)]
+                    for axis, c in zip(projected_axes, projected_position)
+                ),
             )
             total_mass = mass(
                 projected_mid_left_value, projected_mid_right_value, axis_coordinates
@@ -191,7 +200,10 @@ class CouplingLevyCopulaSimulation:
 
             probability = 0
             for p in product([-1, 1], repeat=len(axis_coordinates)):
-                p_value = grid[projected_position + p]
+                p_value = tuple(
+                    axis[c + step]
+                    for axis, c, step in zip(projected_axes, projected_position, p)
+                )
                 p_middle_value = grid.middle(p_value, projected_value)
                 min_max = tuple(
                     (min(p1, p2), max(p1, p2))
